@@ -1,5 +1,6 @@
 import IxpeVerif.Model.IrfName
 import IxpeVerif.Gen.Caldb
+import IxpeVerif.Gen.IrfNameGen
 /-!
 # C12 — every shipped response file is reachable, and a loader never returns another flavour (core Lean only)
 
@@ -148,5 +149,65 @@ theorem legacy_wellformed : (Gen.legacyNames.all fun p => (p.2.filter (· == 58)
 "ixpe_d2_obssim_gray_alpha075_v012.mrf" are what the repaired composition gives -/
 example : (fileName consts [105,120,112,101] 1 sArf ([111,98,115,115,105,109,50,48,50,52,48,49,48,49] ++ sAlpha) 13 true true).toOption.map (hasInfix (sAlpha ++ sSimple ++ sGray))
     = some true := by decide +kernel
+
+/-! ### T-tie: the same statements about the name composition regenerated from the source (`Gen/IrfNameGen.lean`, translator/strtrans.py)
+
+`Gen.Str.irf_file_name` is `irf_file_name` of irf/caldb.py statement by statement (`do`-notation: early `raise` = `throw k`, the loop over
+`VALID_WEIGHT_NAMES`, the reassigned `intent` / `irf_type`).  The kernel evaluates it on the whole configuration space and finds the hand-written
+model (`gen_eq_model_on_cfgs`); the headline theorems are then theorems about the current source. -/
+
+/-- (folder, file) composed for a configuration by the **generated** name composition -/
+def genPath (c : Cfg) : Option (List Nat × List Nat) :=
+  match Gen.Str.irf_file_name c.base c.du c.typ c.intent c.version c.simple c.gray, folderOf c.typ with
+  | .ok f, some d => some (d, f)
+  | _, _ => none
+
+theorem gen_eq_model_on_cfgs : allCfgs.all (fun c => genPath c == path c) = true := by decide +kernel
+
+theorem genPath_eq (c : Cfg) (hc : c ∈ allCfgs) : genPath c = path c := by
+  have := List.all_eq_true.mp gen_eq_model_on_cfgs c hc
+  simpa using this
+
+theorem filterMap_congr_mem {α β : Type} (f g : α → Option β) : ∀ (l : List α), (∀ a ∈ l, f a = g a) → l.filterMap f = l.filterMap g
+  | [], _ => rfl
+  | a :: l, h => by
+    simp only [List.filterMap_cons, h a List.mem_cons_self, filterMap_congr_mem f g l (fun x hx => h x (List.mem_cons_of_mem _ hx))]
+
+/-- **No orphans, on the current source** -/
+theorem gen_no_orphans : ∀ p ∈ loaderFiles, ∃ c ∈ allCfgs, genPath c = some p := by
+  intro p hp
+  obtain ⟨c, hc, h⟩ := no_orphans p hp
+  exact ⟨c, hc, by rw [genPath_eq c hc, h]⟩
+
+/-- **Flavour faithful, on the current source** -/
+theorem gen_flavour_faithful : ∀ c ∈ allCfgs, ∀ p, genPath c = some p →
+    hasInfix sSimple p.2 = c.simple ∧ hasInfix [103, 114, 97, 121] p.2 = c.gray ∧ folderOf c.typ = some p.1 := by
+  intro c hc p hp
+  rw [genPath_eq c hc] at hp
+  have := List.all_eq_true.mp flavour_faithful c hc
+  simp only [hp, Bool.and_eq_true, beq_iff_eq] at this
+  exact ⟨this.1.1, this.1.2, this.2⟩
+
+/-- **Injective, on the current source** -/
+theorem gen_config_injective : (allCfgs.filterMap genPath).Nodup := by
+  rw [filterMap_congr_mem genPath path allCfgs genPath_eq]; exact config_injective
+
+/-- unsupported combinations are refused by the generated code whatever the other arguments (`throw 0`, `throw 2` = the first and third `raise`) -/
+theorem gen_simple_type_refused (base intent typ : List Nat) (du version : Nat) (gray : Bool)
+    (h : consts.simpleTypes.contains typ = false) : Gen.Str.irf_file_name base du typ intent version true gray = .error 0 := by
+  have h' : ¬typ = [97, 114, 102] ∧ ¬typ = [109, 114, 102] := by simpa [consts, Gen.supportedSimpleTypes] using h
+  simp only [Gen.Str.irf_file_name]
+  simp [h']
+  rfl
+
+theorem gen_gray_type_refused (base intent typ : List Nat) (du version : Nat)
+    (h : consts.grayTypes.contains typ = false) : Gen.Str.irf_file_name base du typ intent version false true = .error 2 := by
+  have h' : ¬typ = [97, 114, 102] ∧ ¬typ = [109, 114, 102] := by simpa [consts, Gen.supportedGrayTypes] using h
+  simp only [Gen.Str.irf_file_name]
+  simp [h']
+  rfl
+
+example : (Gen.Str.irf_file_name [105,120,112,101] 2 sMrf [111,98,115,115,105,109] 12 false false).toOption
+    = some [105,120,112,101,95,100,50,95,111,98,115,115,105,109,95,118,48,49,50,46,109,114,102] := by decide +kernel
 
 end C12
